@@ -8,6 +8,9 @@ Definition sk_bq_commit_read : list string := [
     "  ATOMIC _atomic_reader_pos load [memory_order_relaxed]";
     "  EXPR _atomic_reader_pos.store(_reader_pos, std::memory_order_release)";
     "    ATOMIC _atomic_reader_pos store [memory_order_release]"].
+Definition sk_bq_commit_read_atomics : list string := [
+    "ATOMIC _atomic_reader_pos load [memory_order_relaxed]";
+    "ATOMIC _atomic_reader_pos store [memory_order_release]"].
 Definition sk_bq_commit_write : list string := [
     "EXPR _atomic_writer_pos.store(_writer_pos, std::memory_order_release)";
     "  ATOMIC _atomic_writer_pos store [memory_order_release]"].
